@@ -179,11 +179,16 @@ def gen_qr(rng, pools, tps, base_secs, mode=None):
 def gen_aec(rng, pools):
     # a small pool of keys so that the same event is buffered repeatedly within a block (aggregation), plus fresh ones
     if rng.random() < 0.7:
-        k = rng.randrange(4)
-        a = {"ae_type": nat(k % 3), "ip_address": list(pools.ips[k % 2])}
-        if k >= 2:
+        # neighbouring keys differ in exactly one optional member, absent versus present with value 0 included
+        k = rng.randrange(8)
+        a = {"ae_type": nat(0 if k < 6 else 1), "ip_address": list(pools.ips[0 if k != 7 else 1])}
+        if k in (1, 4):
+            a["ae_code"] = nat(0)
+        if k == 2:
             a["ae_code"] = nat(3)
-        if k == 3:
+        if k in (3, 4):
+            a["ae_transport_flags"] = nat(0)
+        if k == 5:
             a["ae_transport_flags"] = nat(1)
     else:
         a = {"ae_type": nat(rng.choice([0, 1, 2, 3, 4, 5])), "ip_address": list(rng.choice(pools.ips[:3]))}
